@@ -24,6 +24,8 @@ SUPPLY = {
     "list": A.vlist(A.vstr("l1"), A.vstr("l2")),
     "empty": A.vlist(),
     "outer": A.vstr("from-outer"),
+    "shadow": A.vstr("from-inner"),       # the caller's set binds the name and so does the set it is nested in (other value)
+    "shadowlist": A.vlist(A.vstr("i1")),  # the same with a list in the nested set and a string in the outer one
 }
 
 
@@ -64,14 +66,16 @@ def make_cases(tier):
                 must = [sp for sp in sups if sp[0] == "absent" and any(x in ("absent", "str", "int") for x in sp[1:])][: (3 if tier == "quick" else (16 if ng == 2 else 8))]
                 sups = keep + [m for m in must if m not in keep]
             for sup in sups:
-                glob, outer = {}, []
+                glob, outer, shadowed = {}, [], {}
                 for (name, _, _), sname in zip(decls, sup):
                     if SUPPLY[sname] is not None:
                         glob[name] = SUPPLY[sname]
                         if sname == "outer":
                             outer.append(name)
+                        if sname.startswith("shadow"):
+                            shadowed[name] = A.vstr("shadowed-outer-value")
                 prog = reader_program(decls)
-                for c in A.both_modes("c16-%d" % k, prog, 1, globals_=glob, globals_outer=outer):
+                for c in A.both_modes("c16-%d" % k, prog, 1, globals_=glob, globals_outer=outer, globals_shadowed=shadowed):
                     c["decls"] = [[n, q, d or ""] for n, q, d in decls]
                     c["supply"] = list(sup)
                     cases.append(c)
